@@ -210,7 +210,8 @@ class PKESessionKeyV3(PKESessionKey):
         if self.pkalg == PubKeyAlgorithm.RSAEncryptOrSign:
             # pad up ct with null bytes if necessary
             ct = self.ct.me_mod_n.to_mpibytes()[2:]
-            ct = b'\x00' * ((pk.keymaterial.__privkey__().key_size // 8) - len(ct)) + ct
+            # I2OSP (RFC 3447 4.1): the ciphertext is as long as the modulus, whose bit length need not be a multiple of 8
+            ct = b'\x00' * (pk.keymaterial.n.byte_length() - len(ct)) + ct
 
             decrypter = pk.keymaterial.__privkey__().decrypt
             decargs = (ct, padding.PKCS1v15(),)
